@@ -161,13 +161,13 @@ def run(ctx):
         vlib.write_ndjson(os.path.join(wd, "cases.ndjson"), [case])
     else:
         thorough = ctx.tier == "thorough"
-        ntrees, nclean, nfaulty = (400, 12000, 12000) if thorough else (120, 1000, 1000)
+        ntrees, nclean, nfaulty = (400, 9000, 9000) if thorough else (120, 1000, 1000)
         trees = gen_trees(ctx.seed, ntrees)
         vlib.write_ndjson(os.path.join(wd, "trees.ndjson"), trees)
         json.dump(AUX, open(os.path.join(wd, "aux.json"), "w"))
         env = {"CASES": os.path.join(wd, "trees.ndjson"), "AUX": os.path.join(wd, "aux.json")}
-        clean, _ = vlib.tlc_simulate(FAMILY, "Syntax.tla", "Sim_clean.cfg", nclean, 600, env, tag="c16-clean")
-        faulty, _ = vlib.tlc_simulate(FAMILY, "Syntax.tla", "Sim_faulty.cfg", nfaulty, 600, env, tag="c16-faulty")
+        clean, _ = vlib.tlc_simulate(FAMILY, "Syntax.tla", "Sim_clean.cfg", nclean, 600, env, tag="c16-clean", timeout=3400)
+        faulty, _ = vlib.tlc_simulate(FAMILY, "Syntax.tla", "Sim_faulty.cfg", nfaulty, 600, env, tag="c16-faulty", timeout=3400)
         seen, cases = set(), []
         for b in clean + faulty:
             t = trees[b["i"] - 1]
